@@ -352,6 +352,18 @@ class C16(Prop):
         last = case["calls"][-1]
         names = sorted({e["name"] for e in case["ranks"][last]["events"] if e.get("cat") == "cpu_op"})
         case["op"] = rng.choice(names)
+        if rng.random() < 0.25 and len(names) >= 2:
+            # operator names with characters that mean something in a regular expression: the query is a plain substring
+            special = rng.choice(["Optimizer.step#SGD.step", "enumerate(DataLoader)#_SingleProcessDataLoaderIter.__next__"])
+            x, y = rng.sample(names, 2)
+            for rk in case["ranks"]:
+                for e in rk["events"][1:]:
+                    if e.get("cat") == "cpu_op" and e["name"] == x:
+                        e["name"] = special
+                    elif e.get("cat") == "cpu_op" and e["name"] == y and special.startswith("Optimizer"):
+                        e["name"] = "Optimizer_step#SGD_step"       # a different operator that the pattern would match as a regex
+            if any(e.get("name") == special for e in case["ranks"][last]["events"]):
+                case["op"] = special
         case["minLen"] = rng.choice([1, 2, 3])
         case["topk"] = rng.choice([1, 5])
         case["prefix"] = draw_prefix(rng)
